@@ -36,6 +36,7 @@ type c19Case struct {
 	ProxyCode string // default body codec of the proxy peer
 	Pipe      []byte // transfer-filter pipe of the caller's message (hop by hop: it ends at the proxy)
 	RepPipe   []byte // filters the backend adds to its reply
+	Renamed   string // the caller's session on the proxy was given this id (as an auth hook does); "" = default id
 }
 
 type c19Seen struct {
@@ -148,6 +149,7 @@ func genC19(t *rapid.T, protos []vt.NamedProto) c19Case {
 	}
 	c.Failure = rapid.SampledFrom([]string{"", "", "", "", "down-before", "dies-during", "write-fails"}).Draw(t, "failure")
 	c.ProxyCode = rapid.SampledFrom([]string{"json", "plain", "xml"}).Draw(t, "proxycodec")
+	c.Renamed = rapid.SampledFrom([]string{"", "", "user-42", "10.9.8.7:65"}).Draw(t, "renamed")
 	return c
 }
 
@@ -211,9 +213,11 @@ func runC19(c c19Case, protos []vt.NamedProto) []string {
 		sync.Mutex
 		sess erpc.Session
 	}
-	prox := w.Peer(erpc.PeerConfig{DefaultBodyCodec: c.ProxyCode}, proxy.NewPlugin(func(*proxy.Label) proxy.Forwarder {
+	var labels []proxy.Label
+	prox := w.Peer(erpc.PeerConfig{DefaultBodyCodec: c.ProxyCode}, proxy.NewPlugin(func(l *proxy.Label) proxy.Forwarder {
 		cur.Lock()
 		defer cur.Unlock()
+		labels = append(labels, *l)
 		return cur.sess
 	}))
 	caller := w.Peer(erpc.PeerConfig{})
@@ -230,6 +234,25 @@ func runC19(c c19Case, protos []vt.NamedProto) []string {
 		}
 	}
 	cur.sess = p2b.A
+	if c.Renamed != "" {
+		c2p.B.SetID(c.Renamed)
+	}
+	// what the forwarder function is told about the request: who asks (session id), from
+	// where (the same real IP the backend is told) and for what
+	checkLabel := func() string {
+		cur.Lock()
+		defer cur.Unlock()
+		wantIP := c.RealIP
+		if wantIP == "" {
+			wantIP = c2p.B.RemoteAddr().String()
+		}
+		for _, l := range labels {
+			if l.SessionID != c2p.B.ID() || l.RealIP != wantIP || l.ServiceMethod != c.Method {
+				return fmt.Sprintf("the forwarder function was given label %+v, want {SessionID:%s RealIP:%s ServiceMethod:%s}", l, c2p.B.ID(), wantIP, c.Method)
+			}
+		}
+		return ""
+	}
 
 	if c.Kind == "push" {
 		if st := direct.A.Push(c.Method, append([]byte(nil), c.Body...), c.settings(true)...); !st.OK() {
@@ -274,6 +297,9 @@ func runC19(c c19Case, protos []vt.NamedProto) []string {
 		}
 		if len(pushIPs) != 1 || pushIPs[0] != wantPushIP {
 			failf("backend saw real-IP metadata %v on the proxied push, want exactly [%s]", pushIPs, wantPushIP)
+		}
+		if m := checkLabel(); m != "" {
+			failf("%s", m)
 		}
 		return fails
 	}
@@ -374,6 +400,9 @@ func runC19(c c19Case, protos []vt.NamedProto) []string {
 	if len(realIPs) != 1 || realIPs[0] != wantIP {
 		failf("backend saw real-IP metadata %v via the proxy, want exactly [%s]", realIPs, wantIP)
 	}
+	if m := checkLabel(); m != "" {
+		failf("%s", m)
+	}
 	// what the caller sees
 	if pres.Status != dres.Status {
 		failf("status via the proxy %+v, directly %+v", pres.Status, dres.Status)
@@ -399,7 +428,7 @@ func runC19(c c19Case, protos []vt.NamedProto) []string {
 	return fails
 }
 
-const ruleC19 = "the same generated request (method, body bytes, body codec incl. ones different from the proxy peer's default, request metadata with repeated keys, real-IP metadata present/absent, accept-body-codec hint, optional transfer-filter pipe on the request and filters added by the backend to its reply) is sent to a backend directly and through a peer running the proxy plugin; the backend's unknown-handler returns generated body bytes / reply codec / reply metadata / status (any code outside the framework-reserved 100-199); pushes likewise; backend failures: session closed before the call, connection cut while the backend handler is gated, sending to the backend fails with an I/O error while its session still looks healthy; oracle (differential): caller-visible status triple, body bytes, reply codec and reply metadata (key -> one value) equal for both paths; backend saw the same method, body, codec and metadata exactly once plus real-IP = the original caller's address iff absent; a backend connection failure gives 502 on that call only (next proxied call on the same and on another session equals the direct result); non-trivial = non-default codec, repeated/special metadata, non-OK status or a failure; distinct by case"
+const ruleC19 = "the same generated request (method, body bytes, body codec incl. ones different from the proxy peer's default, request metadata with repeated keys, real-IP metadata present/absent, accept-body-codec hint, optional transfer-filter pipe on the request and filters added by the backend to its reply) is sent to a backend directly and through a peer running the proxy plugin (on which the caller's session keeps its default id or was renamed with SetID, as an auth hook does); the backend's unknown-handler returns generated body bytes / reply codec / reply metadata / status (any code outside the framework-reserved 100-199); pushes likewise; backend failures: session closed before the call, connection cut while the backend handler is gated, sending to the backend fails with an I/O error while its session still looks healthy; oracle (differential): caller-visible status triple, body bytes, reply codec and reply metadata (key -> one value) equal for both paths; backend saw the same method, body, codec and metadata exactly once plus real-IP = the original caller's address iff absent, and the forwarder function's label names the caller's session id, that real IP and the method; a backend connection failure gives 502 on that call only (next proxied call on the same and on another session equals the direct result); non-trivial = non-default codec, repeated/special metadata, non-OK status or a failure; distinct by case"
 
 func TestC19Proxy(t *testing.T) {
 	rec := vt.NewRec(t, "C19", "proxy", ruleC19)
